@@ -197,6 +197,28 @@ def near_pairs(r, a):
     return b
 
 
+def g_period_sp(r):
+    """a valid g* spelling: (text, Gallina period_sp term)"""
+    t = g_tz(r)
+    k = r.randrange(5)
+    y = g_year(r)
+    ys = ("-" if y["neg"] else "") + y["ds"]
+    if k == 0:
+        d = r.randint(1, 31)
+        return "---%02d" % d + tz_lex(t), f"(GDay {cZ(d)} {tz_term(t)})"
+    if k == 1:
+        m = r.randint(1, 12)
+        return "--%02d" % m + tz_lex(t), f"(GMonth {cZ(m)} {tz_term(t)})"
+    if k == 2:
+        m = r.randint(1, 12)
+        d = r.choice([mlen(2000, m), r.randint(1, mlen(2000, m))])
+        return "--%02d-%02d" % (m, d) + tz_lex(t), f"(GMonthDay {cZ(m)} {cZ(d)} {tz_term(t)})"
+    if k == 3:
+        return ys + tz_lex(t), f"(GYear {year_term(y)} {tz_term(t)})"
+    m = r.randint(1, 12)
+    return ys + "-%02d" % m + tz_lex(t), f"(GYearMonth {year_term(y)} {cZ(m)} {tz_term(t)})"
+
+
 def g_period(r):
     t = tz_lex(g_tz(r))
     k = r.randrange(7)
@@ -335,7 +357,9 @@ def run(ck: Check):
             t[0] = 0
         add({"op": "time_std", "v": t}, kind="time_std")
     for _ in range(400 * N):
-        add({"op": "period", "s": g_period(r)}, kind="period")
+        add({"op": "period", "s": g_period(r)}, kind="period", sp=None)
+        pt, pterm = g_period_sp(r)
+        add({"op": "period", "s": pt}, kind="period", sp=pterm)
         add({"op": "duration", "s": g_duration(r)}, kind="duration", sp=None)
         t, term = g_duration_sp(r)
         add({"op": "duration", "s": t}, kind="duration", sp=term)
@@ -444,6 +468,10 @@ def run(ck: Check):
         distinct.add(("period", it[1]["s"]))
     for it in run_pred("agree_period", t_str_obs, "agree_period", items, terms):
         ck.failure("corr-period", f"model and implementation disagree on XmlPeriod({it[1]['s']!r}): impl={it[2]}", {"op": it[1], "impl": it[2]})
+    sp_items = [it for it in items if it[3].get("sp")]
+    sp_terms = [f"({it[3]['sp']}, {cstr(it[1]['s'])}, {obs_tuple(it[2])})" for it in sp_items]
+    for it in run_pred("acc_period", "period_sp * str * option (list (option Z))", "oracle_period_accepts", sp_items, sp_terms):
+        ck.failure("period-xsd-valid-not-accepted", f"XSD-valid period {it[1]['s']!r} gave {it[2]}", {"op": it[1], "impl": it[2]})
     items = cases_of("duration")
     # implementation's own regex group + CPython float() on it
     aux = run_impl("impl_c06_aux.py", [it[1]["s"] for it in items])
